@@ -30,6 +30,17 @@ def eq(k, z, c):
     res = k - 0.5 * k(-1) - z - 0.1 * c
     y = k + z
     return res, y
+
+@simple
+def eqs2(u1, u2, z):
+    t1 = u2 - z                              # the first target does not depend on the first unknown
+    t2 = u1 + 0.5 * u2(-1) - 2 * z
+    return t1, t2
+
+@simple
+def extra2(u1, u2, zz):
+    out = u1 + 3 * u2(+1) + 0 * zz           # zz affects nothing
+    return out
 '''
 
 
@@ -110,6 +121,14 @@ def compare_behaviour(name, b, rb, total, calib, shocks, T, unknowns=None):
     ins = list(b.inputs)
     J = jac_dense(b.jacobian(ss, ins, T=T), T)
     RJ = jac_dense(rb.jacobian(rss, [total.get(i, i) for i in ins], T=T), T)
+    J0, JR = b.jacobian(ss, ins, T=T), rb.jacobian(rss, [total.get(i, i) for i in ins], T=T)
+    if list(JR.inputs) != [total.get(i, i) for i in J0.inputs] or list(JR.outputs) != [total.get(o, o) for o in J0.outputs]:
+        return dict(what='the input/output lists of the remapped block\'s Jacobian are not the substituted lists of the original Jacobian', input=inp,
+                    observed=dict(inputs=list(JR.inputs), outputs=list(JR.outputs)), expected=dict(inputs=[total.get(i, i) for i in J0.inputs], outputs=[total.get(o, o) for o in J0.outputs]),
+                    signature=dict(op='jacobian-lists', block=name))
+    P0, PR = J0.pack(T), JR.pack(T)
+    if P0.shape != PR.shape or not np.allclose(P0, PR):
+        return dict(what='the packed Jacobian of the remapped block differs from the packed original', input=inp, observed=list(PR.shape), expected=list(P0.shape), signature=dict(op='jacobian-pack', block=name))
     if {(total.get(o, o), total.get(i, i)) for (o, i) in J} != set(RJ) or any(not np.allclose(RJ[(total.get(o, o), total.get(i, i))], v) for (o, i), v in J.items()):
         return dict(what='jacobian of the remapped block is not the substituted original Jacobian', input=inp, observed=sorted(map(str, RJ)), expected=sorted(str((total.get(o, o), total.get(i, i))) for o, i in J),
                     signature=dict(op='jacobian', block=name))
@@ -199,6 +218,51 @@ def check_blocks(rng):
         if list(rn.inputs) != list(b.inputs) or list(rn.outputs) != list(b.outputs) or rn.name == b.name:
             C.push(out, dict(what='rename changed more (or less) than the block name', input=dict(kind='behaviour', block=name), signature=dict(op='rename', block=name)))
     return out, n
+
+
+def check_ge_remap(rng):
+    """general-equilibrium methods of a remapped composite model (shock, an output, an unknown and a target renamed in turn) vs the original with names substituted"""
+    m = module()
+    from sequence_jacobian import combine
+    out, n, T = [], 0, 6
+    model = combine([m.eqs2, m.extra2], name='m2')
+    cal = {'u1': 1.0, 'u2': 1.0, 'z': 1.0, 'zz': 0.3}
+    ss = model.steady_state(cal)
+    U, Tg = ['u1', 'u2'], ['t1', 't2']
+    dz = 0.1 * 0.8 ** np.arange(T)
+    G0 = model.solve_jacobian(ss, U, Tg, ['z', 'zz'], T=T)
+    I0 = model.solve_impulse_linear(ss, U, Tg, {'z': dz})
+    N0 = model.solve_impulse_nonlinear(ss, U, Tg, {'z': dz}, options={'m2': dict(verbose=False)})
+    H0 = model.jacobian(ss, U, Tg, T=T)
+    for ren in ({'z': 'shock', 'out': 'Y'}, {'u1': 'x1'}, {'t1': 'gap1', 'zz': 'noise'}, {'u1': 'u2', 'u2': 'u1'}, {'z': 'shock', 'u2': 'x2', 't2': 'gap2', 'out': 'Y'}):
+        n += 1
+        r = lambda k: ren.get(k, k)
+        inp = dict(kind='ge-remap', mapping=ren)
+        try:
+            mr = model.remap(ren)
+            ssr = mr.steady_state({r(k): v for k, v in cal.items()})
+            rU, rT = [r(k) for k in U], [r(k) for k in Tg]
+            G = mr.solve_jacobian(ssr, rU, rT, [r('z'), r('zz')], T=T)
+            bad = [f'd{r(o)}/d{r(i)}' for o in G0.outputs for i in G0.nesteddict[o] if r(o) not in G.nesteddict or r(i) not in G.nesteddict[r(o)]
+                   or not np.allclose(M_dense(G.nesteddict[r(o)][r(i)], T), M_dense(G0.nesteddict[o][i], T))]
+            if [r(o) for o in G0.outputs] != list(G.outputs) or [r(i) for i in G0.inputs] != list(G.inputs):
+                bad.append('input/output lists')
+            I = mr.solve_impulse_linear(ssr, rU, rT, {r('z'): dz})
+            bad += [f'linear impulse {r(k)}' for k in I0.toplevel if r(k) not in I.toplevel or not np.allclose(I[r(k)], I0[k])]
+            Nn = mr.solve_impulse_nonlinear(ssr, rU, rT, {r('z'): dz}, options={'m2': dict(verbose=False)})
+            bad += [f'nonlinear impulse {r(k)}' for k in N0.toplevel if r(k) not in Nn.toplevel or not np.allclose(Nn[r(k)], N0[k], atol=1e-9)]
+            H = mr.jacobian(ssr, rU, rT, T=T)
+            if list(H.inputs) != [r(k) for k in H0.inputs] or list(H.outputs) != [r(k) for k in H0.outputs] or not np.allclose(H.pack(T), H0.pack(T)):
+                bad.append('H_U lists / packed matrix')
+        except Exception as ex:
+            bad = [f'raised {type(ex).__name__}: {ex}']
+        if bad:
+            C.push(out, dict(what='general-equilibrium result of a remapped composite model is not the original result with names substituted', input=inp, observed=bad[:5], signature=dict(op='ge-remap', mapping=sorted(ren))))
+    return out, n
+
+
+def M_dense(e, T):
+    return e if isinstance(e, np.ndarray) else e.matrix(T)
 
 
 def check_het(rng):
@@ -327,10 +391,18 @@ def oracle(ctx, hints, broken):
     for x in v:
         C.push(viol, x)
     n += k
+    try:
+        v, k = check_ge_remap(rng)
+    except Exception as ex:
+        import traceback
+        v, k = [dict(what=f'check_ge_remap raised {type(ex).__name__}: {ex}', input=dict(kind='raise', trace=traceback.format_exc()[-500:]), signature=dict(op='raise', f='check_ge_remap'))], 1
+    viol += v
+    n += k
     return dict(evaluations=n, violations=viol,
                 rule='simple, combined and solved blocks remapped once / chained / back / swapped / swapped-then-renamed: interface, steady_state, '
                      'jacobian (dense), impulse_linear, impulse_nonlinear vs the substituted results of the original; original unchanged; rename; '
-                     'shipped one-asset household with remap before/after add/remove of heterogeneous inputs (interface, steady state, Jacobian)')
+                     'shipped one-asset household with remap before/after add/remove of heterogeneous inputs (interface, steady state, Jacobian); Jacobian input/output lists and packed matrix of every remapped block; '
+                     'solve_jacobian, solve_impulse_linear, solve_impulse_nonlinear and H_U of a two-unknown composite model under five renamings (shock, output, unknown, target, swap of the two unknowns)')
 
 
 def replay(rp):
